@@ -54,6 +54,9 @@ func buildFlavour(fl, binDir string) (string, error) {
 		args = append(args, "-tags", "verif", "-race")
 	case "noadx":
 		args = append(args, "-tags", "verif,noadx")
+	case "amd64adx":
+		// the build that selects the ADX-only assembly file at compile time (no run-time feature check, no fallback)
+		args = append(args, "-tags", "verif,amd64_adx")
 	case "386":
 		// a 32-bit build: the portable (non-assembly) code of every package, 32-bit int and big.Word
 		args = append(args, "-tags", "verif")
